@@ -301,30 +301,31 @@ impl MultiState {
                 .as_ref()
                 .map(|d| d.visual_line_count(.., width))
                 .unwrap_or_default();
-            // Track the total number of zombie lines on the screen.
-            self.zombie_lines_count += line_count;
-
             // Track the number of zombie lines that will be drawn by this call to draw.
             adjust += line_count;
 
             reap_indices.push(index);
         }
 
-        // If this draw is due to a `println`, then we need to erase all the zombie lines.
-        // This is because `println` is supposed to appear above all other elements in the
-        // `MultiProgress`.
-        if extra_lines.is_some() {
-            self.draw_target
-                .adjust_last_line_count(LineAdjust::Clear(self.zombie_lines_count));
-            self.zombie_lines_count = VisualLines::default();
-        }
-
         let orphan_visual_line_count = visual_line_count(&self.orphan_lines, width);
         force_draw |= orphan_visual_line_count > VisualLines::default();
         let mut drawable = match self.draw_target.drawable(force_draw, now) {
             Some(drawable) => drawable,
+            // Nothing is drawn (e.g. rate limited), so the line accounting must not change either.
             None => return Ok(()),
         };
+
+        if extra_lines.is_some() {
+            // If this draw is due to a `println`, then we need to erase all the zombie lines.
+            // This is because `println` is supposed to appear above all other elements in the
+            // `MultiProgress`. The zombies reaped by this very draw are still part of the last
+            // frame (and of its line count), so only the previously reaped ones are added.
+            drawable.adjust_last_line_count(LineAdjust::Clear(self.zombie_lines_count));
+            self.zombie_lines_count = VisualLines::default();
+        } else {
+            // Track the total number of zombie lines on the screen.
+            self.zombie_lines_count = self.zombie_lines_count.saturating_add(adjust);
+        }
 
         let mut draw_state = drawable.state();
         draw_state.alignment = self.alignment;
